@@ -1334,7 +1334,7 @@ def world_diagnose(src, cs, seq):
 def world_cases(ctx, readers, terms, metas, idx):
     rng = ctx.rng
     styles = ["lockstep", "intruder", "intruder", "walk", "walk"]
-    nworlds = ctx.n(240, 2500)
+    nworlds = ctx.n(200, 2500)
     t_start, first = __import__("time").time(), idx
     for wi in range(nworlds):
         big = (wi % 23 == 5) if ctx.quick() else (wi % 15 == 5)
